@@ -46,7 +46,20 @@ inductive Prim where
   | useCheck (h : String)
   | setCoinOwner (sym : String) (a : Addr)
   | bumpVersion (c : Coin) (v : Nat)
-  | note (tag : String)                     -- bookkeeping without value (multisig, candidate settings, votes …)
+  | note (tag : String)                     -- bookkeeping without value
+  -- settings without value (candidates, multisigs, stake lock, votes, order counter)
+  | setLockStake (a : Addr) (h : Height)
+  | setMultisig (a : Addr) (ms : Multisig)
+  | addCandidate (cd : Candidate)           -- stakes and updates of `cd` are ignored (a new candidate holds nothing)
+  | setCandStatus (id : Nat) (status : Nat)
+  | setToDrop (pk : PubKey)
+  | editCandidate (id : Nat) (owner reward control : Addr)
+  | setCandPubKey (id : Nat) (old new : PubKey)
+  | setCandCommission (id : Nat) (commission : Nat) (h : Height)
+  | addHalt (h : Height) (pk : PubKey)
+  | addCVote (h : Height) (pk : PubKey) (digest : String)
+  | addUVote (h : Height) (pk : PubKey) (version : String)
+  | setNextOrder (n : Nat)
   deriving Repr
 
 def nonceOf (s : State) (a : Addr) : Nat := (s.nonces.lookup a).getD 0
@@ -84,6 +97,11 @@ def Prim.ok (s : State) : Prim → Bool
   | .delFrozen f => decide (findFirst (fun x => decide (x = f)) s.frozen = some f)
   | .delOrder o => decide (findFirst (·.id == o.id) s.orders = some o)
   | .fillOrder o _ _ => decide (findFirst (·.id == o.id) s.orders = some o)
+  | .addCandidate cd => !(s.candidates.any (fun x => x.id == cd.id || x.pubkey == cd.pubkey))
+  | .setCandStatus id _ => s.candidates.any (·.id == id)
+  | .editCandidate id _ _ _ => s.candidates.any (·.id == id)
+  | .setCandPubKey id _ _ => s.candidates.any (·.id == id)
+  | .setCandCommission id _ _ => s.candidates.any (·.id == id)
   | _ => true
 
 def Prim.apply (s : State) : Prim → State
@@ -115,6 +133,18 @@ def Prim.apply (s : State) : Prim → State
   | .setCoinOwner sym a => { s with coins := s.coins.map (fun ci => if ci.symbol == sym then { ci with owner := some a } else ci) }
   | .bumpVersion c v => { s with coins := updFirst (·.id == c) (fun ci => { ci with version := v }) s.coins }
   | .note _ => s
+  | .setLockStake a h => { s with lockStake := setAssoc s.lockStake a h }
+  | .setMultisig a ms => { s with multisigs := setAssoc s.multisigs a ms }
+  | .addCandidate cd => { s with candidates := s.candidates ++ [{ cd with stakes := [], updates := [] }] }
+  | .setCandStatus id st => { s with candidates := updFirst (·.id == id) (fun cd => { cd with status := st }) s.candidates }
+  | .setToDrop pk => { s with validators := updFirst (·.pubkey == pk) (fun v => { v with toDrop := true }) s.validators }
+  | .editCandidate id ow rw ct => { s with candidates := updFirst (·.id == id) (fun cd => { cd with owner := ow, reward := rw, control := ct }) s.candidates }
+  | .setCandPubKey id old new => { s with candidates := updFirst (·.id == id) (fun cd => { cd with pubkey := new }) s.candidates, blocklist := old :: s.blocklist }
+  | .setCandCommission id c h => { s with candidates := updFirst (·.id == id) (fun cd => { cd with commission := c, lastEditCommission := h }) s.candidates }
+  | .addHalt h pk => { s with halts := (h, pk) :: s.halts }
+  | .addCVote h pk dg => { s with cvotes := ((h, pk), dg) :: s.cvotes }
+  | .addUVote h pk v => { s with uvotes := ((h, pk), v) :: s.uvotes }
+  | .setNextOrder n => { s with nextOrder := n }
 
 /-- Checked application of a plan: `none` as soon as a side condition fails. -/
 def applyChecked : State → List Prim → Option State
